@@ -66,7 +66,7 @@ Definition cids_of (i : N) (before after : list inst) (xs : list xreq) : list N 
   match nthN after i with Some x => map fst (i_orders x) | None => [] end ++
   map (fun x => match x with XCancel c => k_cid (cr_key c) | XOpen o => k_cid (or_key o) end) xs.
 
-Definition obs_to_insts (static : list inst) (o : list (omap * option pos * option (Z * Z))) : list inst :=
+Definition obs_to_insts (static : list inst) (o : list (omap * option pos * mdata)) : list inst :=
   map (fun p => mkInst (i_ex (fst p)) (i_base (fst p)) (i_quote (fst p)) (fst (fst (snd p))) (snd (fst (snd p))) (snd (snd p)))
       (combine static o).
 
@@ -90,7 +90,7 @@ Definition oracle_step (v : oview) (st : step) : bool * oview :=
       let v' := mkOView (ov_trading v) (updN ls e (fun _ => stt)) (ov_insts v) in
       (Bool.eqb (ob_trading o) (ov_trading v) &&
        forallb (fun d => match d with [] => true | _ => false end) (ob_deliv o) &&
-       list_eqb iobs_eqb (map (fun i => (i_orders i, i_pos i, i_last i)) (ov_insts v)) (ob_insts o) &&
+       list_eqb iobs_eqb (map (fun i => (i_orders i, i_pos i, i_data i)) (ov_insts v)) (ob_insts o) &&
        match ob_res o with RNone => true | _ => false end, v')
   | _ =>
       (* what the step is *)
@@ -178,7 +178,7 @@ Definition oracle_step (v : oview) (st : step) : bool * oview :=
           (nat_seqN n) in
       let rest_ok :=
         list_eqb (fun a b => option_eqb pos_eqb (i_pos a) (i_pos b) &&
-                             option_eqb (pair_eqb Z.eqb Z.eqb) (i_last a) (i_last b)) after (insts su) &&
+                             mdata_eqb (i_data a) (i_data b)) after (insts su) &&
         Bool.eqb (ob_trading o) trading_after in
       (shape_ok && cmd_ok && gen_ok && errors_ok && outputs_ok && deliv_ok && orders_ok && rest_ok,
        mkOView (ob_trading o) ls after)
